@@ -58,6 +58,33 @@ def solve_cli(case, kind, keep_old_solution=False):
     return crash.session(world, path, cli)
 
 
+_pinned = {}
+
+
+def limits_for(case, kind):
+    """length limits / choice lists per (form, PDF field): generated spec (synthetic) or pinned catalogue (shipped)"""
+    if kind == 'synth':
+        out = {}
+        for fs in case['world']['forms']:
+            d = {}
+            for m_ in fs.get('pdf', []):
+                ent = {}
+                if m_.get('max_length') is not None:
+                    ent['max_length'] = m_['max_length']
+                if m_.get('choices') is not None:
+                    ent['choices'] = list(m_['choices'])
+                if ent:
+                    d[m_['pdf_name']] = ent
+            out[fs['name']] = d
+        return out
+    y = case['persona']['year']
+    if y not in _pinned:
+        import json
+        with open(os.path.join(core.VERIF, 'catalogues', f'pdf_limits_{y}.json')) as f:
+            _pinned[y] = json.load(f)['limits']
+    return _pinned[y]
+
+
 def year_forms_for(case, kind):
     if kind == 'synth':
         classes, _ = synth.build_classes(case['world'])
@@ -83,7 +110,7 @@ def evaluate(case, engine, acc=None, want='C19', keep_old_solution=False):
             forms = None
         if forms is not None:
             if want == 'C19':
-                f2, info = pipeline.judge_fill(res, forms, vals, fields, case['pipe']['flatten'], F)
+                f2, info = pipeline.judge_fill(res, forms, vals, fields, case['pipe']['flatten'], F, limits_for(case, kind))
                 fs += f2
             else:
                 stored = dict(run.monitor.stored)
